@@ -86,10 +86,18 @@ func TestStreamPacket(t *testing.T) {
 		if deep {
 			n, relay = 2, false
 		}
+		c13 := i == 0 && !deep
+		if c13 {
+			n, relay = 3, false
+		}
 		w := NewWorld(t, n)
 		g := &PacketGen{w: w, r: r, stats: map[string]int{}, relay: relay}
 		if deep {
 			g.RunDeep()
+		} else if c13 {
+			g.SetupTopology()
+			g.RunC13()
+			g.runOps(nops / 2)
 		} else {
 			g.Run(nops)
 		}
@@ -124,3 +132,19 @@ func TestStreamNft(t *testing.T) { runTransferStream(t, "nft", false) }
 
 // TestStreamMt generates the multi-token-transfer correspondence stream.
 func TestStreamMt(t *testing.T) { runTransferStream(t, "mt", true) }
+
+// TestStreamRouting generates the routing-rules correspondence stream (C12).
+func TestStreamRouting(t *testing.T) {
+	seed := uint64(envInt("VERIF_SEED", 1))
+	cases := envInt("VERIF_CASES", 4)
+	nops := envInt("VERIF_OPS", 600)
+	out := &streamOut{stats: map[string]int{}}
+	for i := 0; i < cases; i++ {
+		r := &Rng{s: seed*1000003 + uint64(i)*7919 + 29}
+		w := NewWorld(t, 1)
+		g := &RoutingGen{w: w, r: r, stats: map[string]int{}}
+		g.Run(nops)
+		out.add(w, g.stats)
+	}
+	out.write(t, "routing")
+}
